@@ -22,6 +22,7 @@ INVARIANT ForcedExecutedOrFailed
 INVARIANT InboxRoot
 INVARIANT MessagesLand
 INVARIANT ExecutedOnce
+INVARIANT ProcessedRecorded
 INVARIANT DupRejected
 POSTCONDITION TraceAccepted
 CHECK_DEADLOCK FALSE
